@@ -4,7 +4,7 @@
    every node's Loc being the span of its tokens by the relation itself). *)
 From Coq Require Import String List NArith.
 From GQL Require Import Base.Bytes Syntax.Lexer Syntax.Ast Syntax.Parser Syntax.Grammar
-  Proofs.SyntaxSound Proofs.SyntaxComplete.
+  Proofs.SyntaxSound Proofs.SyntaxComplete Proofs.SyntaxLexer Proofs.SyntaxTerm.
 Import ListNotations.
 Open Scope N_scope.
 
@@ -52,6 +52,29 @@ Proof.
   cbn [doc_loc]. unfold span. cbn [lend]. rewrite endof_app. reflexivity.
 Qed.
 Print Assumptions C03_locations_partial.
+
+(* Termination: the fuel the models are run with is never exhausted -- the lexer with
+   fuel = length of the source + 1, the parser with fuel = 2 * number of tokens + 1 -- so the
+   model of parser.Parse decides every byte string (accept with an AST, or reject). *)
+Theorem C03_lex_terminates : forall src, lex src <> OutOfFuel.
+Proof. exact lex_terminates. Qed.
+Print Assumptions C03_lex_terminates.
+
+Theorem C03_lex_fuel : forall fuel s pos, (length s < fuel)%nat -> lex_all fuel s pos <> OutOfFuel.
+Proof. exact lex_all_terminates. Qed.
+Print Assumptions C03_lex_fuel.
+
+Theorem C03_parse_fuel : forall fuel ts, (length ts < fuel)%nat -> parse_document fuel ts <> OutOfFuel.
+Proof. exact parse_document_terminates. Qed.
+Print Assumptions C03_parse_fuel.
+
+Theorem C03_parse_terminates : forall src, parse src <> OutOfFuel.
+Proof.
+  intro src. unfold parse. pose proof (lex_terminates src) as L.
+  destruct (lex src) as [[ts mb]| |]; [|discriminate|contradiction].
+  pose proof (parse_tokens_terminates ts) as P. destruct (parse_tokens ts); [discriminate|discriminate|contradiction].
+Qed.
+Print Assumptions C03_parse_terminates.
 
 (* non-vacuity: a document that is parsed, hence derivable, and executable *)
 Example C03_nonvacuous :
